@@ -156,8 +156,9 @@ def PathHashState.emit (st : PathHashState) (chunk : List UInt8) : PathHashState
     if component_start < bytes.len() { emit(&bytes[component_start..]) }
     h.write_usize(chunk_bits);
     ```
-    Kept next to `pathHashOfComps ∘ components` (used in the theorems) and compared with it and with
-    the real std by the differential. -/
+    Proved equal to `pathHashOfComps ∘ components` for every byte string
+    (`Lemmas/Views.lean: pathHashLoop_eq`, `Props.C12.path_hash_loop_eq`); both are also compared
+    with the real std by the differential. -/
 def pathHashLoop (bytes : List UInt8) : List UInt8 :=
   let n := bytes.length
   let st := (List.range n).foldl (fun (st : PathHashState) i =>
